@@ -188,6 +188,27 @@ func init() {
 				},
 			})
 		}
+		// (b) saturation skeleton: consecutive expire-and-redeliver rounds up to and
+		// beyond the attempt at which min*1.1^n reaches maxBackoff (n = 43 for the
+		// defaults), with every single extra operation inserted at every position
+		// and pairs on a position grid
+		rounds := 48
+		grid := 12
+		if tier != "thorough" {
+			rounds, grid = 46, 0
+		}
+		var sk []model.Op
+		for i := 0; i < rounds; i++ {
+			sk = append(sk, pull("S0", 10), tick("lease++"))
+		}
+		dev := []model.Op{tick("lease-"), modack("S0", "oldest", 0), modack("S0", "all", 60*time.Second), nack("S0", "oldest"), pull("S0", 1), tick("lease+")}
+		out = append(out, &hist.Scenario{
+			ID: "C04/skeleton-saturation-default-policy", Prop: "C04",
+			Cfg:      model.Cfg{Topics: []string{"T0"}, Subs: []model.SubCfg{{Name: "S0", Topic: "T0", Retention: 100 * 24 * time.Hour}}},
+			Prelude:  []model.Op{pubN("T0", "", "")},
+			Alphabet: append(append([]model.Op{}, dev...), pull("S0", 10), tick("lease++")),
+			Skeleton: &hist.Skeleton{Path: sk, Deviate: dev, PairGrid: grid},
+		})
 		return out
 	}
 
